@@ -1,5 +1,7 @@
+mod ops;
 mod props;
 mod report;
+mod run;
 mod shim;
 mod world;
 
@@ -44,7 +46,10 @@ fn arg_after<'a>(args: &'a [String], flag: &str) -> Option<&'a str> {
 
 fn dispatch_run(prop: &str, tier: Tier, shard: Shard, rep: &mut Report) {
     match prop {
+        "C07" => props::c07::run(tier, shard, rep),
         "C08" => props::c08::run(tier, shard, rep),
+        "C12" => props::c12::run(tier, shard, rep),
+        "C17" => props::c17::run(tier, shard, rep),
         _ => {
             eprintln!("unknown property {}", prop);
             std::process::exit(2);
@@ -54,7 +59,10 @@ fn dispatch_run(prop: &str, tier: Tier, shard: Shard, rep: &mut Report) {
 
 fn dispatch_replay(prop: &str, case: &serde_json::Value, rep: &mut Report) {
     match prop {
+        "C07" => props::c07::replay(case, rep),
         "C08" => props::c08::replay(case, rep),
+        "C12" => props::c12::replay(case, rep),
+        "C17" => props::c17::replay(case, rep),
         _ => {
             eprintln!("unknown property {}", prop);
             std::process::exit(2);
